@@ -96,6 +96,7 @@ func (p *peerEnd) Read(b []byte) (int, error) {
 	}
 	return 0, peerTimeout{}
 }
+
 // peerTimeout is a temporary net.Error so that crypto/tls does not treat a
 // timed-out read as a fatal, sticky connection error.
 type peerTimeout struct{}
@@ -246,7 +247,9 @@ func runSession(sc sessionCase, feature xmpp.StreamFeature, forceTee *bool) sres
 		defer peerWG.Done()
 		var acc []byte
 		// 1. client header
-		if !readUntil(pe, &acc, func(b []byte) bool { return bytes.Contains(b, []byte("<stream:stream")) && bytes.HasSuffix(bytes.TrimSpace(b), []byte(">")) }) {
+		if !readUntil(pe, &acc, func(b []byte) bool {
+			return bytes.Contains(b, []byte("<stream:stream")) && bytes.HasSuffix(bytes.TrimSpace(b), []byte(">"))
+		}) {
 			return
 		}
 		// 2. first features list
